@@ -16,21 +16,37 @@ import (
 // "<callee> on <index field>".
 func removalCallees(fn *ssa.Function) []string {
 	set := map[string]bool{}
-	for _, f := range core.WithClosures(fn) {
-		for _, call := range core.Calls(f) {
-			o := core.CalleeObj(call)
-			if o == nil || !strings.HasPrefix(o.Name(), "removeBy") {
-				continue
-			}
-			field := "?"
-			if rv := core.Receiver(call); rv != nil {
-				if _, fld, _, ok := core.FieldOf(rv); ok {
-					field = fld
+	seen := map[*ssa.Function]bool{}
+	var walk func(fn *ssa.Function, d int)
+	walk = func(fn *ssa.Function, d int) {
+		if seen[fn] || d > 2 {
+			return
+		}
+		seen[fn] = true
+		for _, f := range core.WithClosures(fn) {
+			for _, call := range core.Calls(f) {
+				o := core.CalleeObj(call)
+				if o == nil {
+					continue
 				}
+				if !strings.HasPrefix(o.Name(), "removeBy") {
+					// the removals may sit in a helper of the pool (extracted per-account clean-up)
+					if g := core.StaticCallee(call); g != nil && len(g.Blocks) > 0 && core.PkgOf(g) == core.PkgOf(fn) {
+						walk(g, d+1)
+					}
+					continue
+				}
+				field := "?"
+				if rv := core.Receiver(call); rv != nil {
+					if _, fld, _, ok := core.FieldOf(rv); ok {
+						field = fld
+					}
+				}
+				set[o.Name()+" on "+field] = true
 			}
-			set[o.Name()+" on "+field] = true
 		}
 	}
+	walk(fn, 0)
 	var out []string
 	for k := range set {
 		out = append(out, k)
